@@ -10,7 +10,7 @@ from pwv.props import c08
 
 ID = 'C09'
 RULE = ('Hypothesis draws (order 1/2, filter family incl. band-pass, positive magnitude bias, colour, N, C, H,W in 2..24, input '
-        'recipe incl. all-zero / sparse / constant and scales 1e-30..1e30, cotangent recipe, contiguous or permuted cotangent, '
+        'recipe incl. all-zero / sparse / constant and scales 1e-30..1e30, padding mode (symmetric, or zero for the first-order layer), cotangent recipe, contiguous or permuted cotangent, '
         'dtype for the finiteness part). Oracles, always against the function the forward pass computed: (a) central finite '
         'differences along 4 generated directions in float64 (bias >= 1e-3, unit-scale inputs); (b) torch autograd through a '
         'recomposition of the same forward from differentiable primitives (conv-based fwd_j1/fwd_j2plus, avg_pool2d, sqrt), used '
@@ -49,6 +49,7 @@ def _case(draw, unit):
             'rx': draw(core.recipe_strategy(kinds=['gaussian', 'gaussian', 'sparse', 'constant', 'zeros', 'ramp', 'spike'],
                                             scales=(0, 0, 0, 0, 4, -4, 30, -30))),
             'rg': draw(core.recipe_strategy(kinds=['gaussian', 'gaussian', 'sparse', 'spike', 'constant'], scales=(0,))),
+            'mode': draw(st.sampled_from(['symmetric', 'symmetric', 'zero'])) if order == 1 else 'symmetric',
             'permuted_cotangent': draw(st.booleans()), 'k': draw(st.integers(0, 10**6))}
 
 
@@ -81,7 +82,7 @@ def recompose(layer, x, order):
     """The layer's forward written out of differentiable primitives only (no autograd.Function)."""
     from pytorch_wavelets.dtcwt import transform_funcs as tf
     b, colour = layer.magbias, layer.combine_colour
-    mode = 'symmetric'
+    mode = layer.mode_str
     bp = layer.bandpass_diag
     N = x.shape[0]
 
@@ -146,6 +147,7 @@ def run_case(case):
     N, C = case['N'], case['C']
     r.label('order%d' % order, 'colour' if colour else None, 'bandpass_family' if case['biort'] == 'near_sym_b_bp' else None,
             'kind_' + case['rx']['kind'], 'scale%+d' % case['rx']['scale'] if case['rx']['scale'] else None,
+            'mode_' + case.get('mode', 'symmetric'),
             'permuted_cotangent' if case['permuted_cotangent'] else None,
             'size_extended' if ((H % 2 or W % 2) if order == 1 else (H % 8 or W % 8)) else None)
     if order == 2 and (H == 2 or W == 2):
